@@ -31,6 +31,7 @@ PROPS = {
     "C07": "vf.harness.C07",
     "C08": "vf.harness.C08",
     "C10": "vf.harness.C10",
+    "C11": "vf.harness.C11",
     "C13": "vf.harness.C13",
     "C15": "vf.harness.C15",
     "C16": "vf.harness.C16",
